@@ -955,10 +955,12 @@ class Generator:
         if not m:
             return None
         drop = self.rng.random() < 0.4
+        if m.labels == "open":
+            drop = True  # the old labels are unspecified: never turn them into data
         if m.kind == "series" and drop is False and None in m.cols:
             return None
         # partition-local RangeIndex: labels depend on the layout -> open
-        return self.try_add({"op": "reset_index", "src": m.id, "drop": drop}, m.order, "open", m.root, "range")
+        return self.try_add({"op": "reset_index", "src": m.id, "drop": drop}, m.order, "open", self.next_id, "range")
 
     def g_set_index(self):
         m = self.pick(self.frames(lambda m: len(m.cols) >= 2))
@@ -1049,10 +1051,11 @@ class Generator:
         labels = "open"
         if r < 0.7 and common:
             op["on"] = self.rng.sample(common, self.rng.randint(1, min(2, len(common))))
-        elif r < 0.85 and left.known and right.known and left.index_kind == right.index_kind and left.index_kind not in (None, "set"):
+        elif (r < 0.85 and left.known and right.known and left.index_kind == right.index_kind and left.index_kind not in (None, "set")
+              and left.labels == "defined" and right.labels == "defined"):
             op["left_index"] = True
             op["right_index"] = True
-        elif common and right.known:
+        elif common and right.known and right.labels == "defined":
             op["left_on"] = common[0]
             op["right_index"] = True
             if right.index_kind not in ("int_sorted", "int_unsorted", "range") or left.cols[common[0]] != "int":
